@@ -24,8 +24,8 @@ def isDisconnected (c : Conn) : Bool := c.state = .disconnected
 theorem one_disconnect_per_attempt (jid pass : Option Bytes) (cert : Bool) (flags : Nat)
     (ops : List Op) (a : Nat) :
     (((exec (fresh jid pass cert flags) ops).evs.filter
-        fun p => p.1.attempt = a && isDisconnectEv p.2).length) ≤ 1 := by
-  sorry
+        fun p => p.1.attempt = a && isDisconnectEv p.2).length) ≤ 1 :=
+  Lemmas.ConnC13.one_disconnect_per_attempt jid pass cert flags ops a
 
 /-- an accepted attempt that has ended produced exactly one disconnect notification, a running one
     none yet; before the first accepted connect there is nothing to report -/
@@ -71,12 +71,32 @@ theorem timed_not_early (c : Conn) (t : Timed) (ht : t ∈ c.timed) (hn : (c.tim
   Lemmas.ConnC13.timed_not_early c t ht hn h
 
 /-- … and is invoked by the next pass once due (then it is re-stamped with the current time or,
-    if it returned false, removed) -/
-theorem timed_fires_when_due (c : Conn) (t : Timed) (ht : t ∈ c.timed)
-    (hn : (c.timed.map (·.uid)).Nodup) (hs : c.state = .connected)
-    (hu : t.user = false) (h : c.now - t.lastStamp ≥ t.period) :
-    ∀ t' ∈ (fireTimed c).timed, t'.uid = t.uid → t'.lastStamp = c.now :=
-  Lemmas.ConnC13.timed_fires_when_due c t ht hn hs hu h
+    if it returned false, removed): in every reachable state.  (As a statement about one pass from
+    an ARBITRARY connection record it is false — a handler fired earlier in the pass can register
+    a timed handler that receives the same uid when the uid counter is behind; reachable states
+    keep the counter ahead of every uid in use: `timed_uids_fresh`,
+    `Lemmas.ConnC13.timed_fires_when_due_partial` and the counterexample next to it.) -/
+theorem timed_fires_when_due (jid pass : Option Bytes) (cert : Bool) (flags : Nat) (ops : List Op)
+    (t : Timed) :
+    let c := exec (fresh jid pass cert flags) ops
+    t ∈ c.timed → c.state = .connected → t.user = false → c.now - t.lastStamp ≥ t.period →
+      ∀ t' ∈ (fireTimed c).timed, t'.uid = t.uid → t'.lastStamp = c.now :=
+  Lemmas.ConnC13.timed_fires_when_due jid pass cert flags ops t
+
+set_option maxRecDepth 20000 in
+/-- non-vacuity of `timed_fires_when_due`: 15000 ms after the stream was opened the features timer of
+    a reachable, connected state is registered, not a user handler, and due -/
+example :
+    let c := exec (fresh (some (b "user@example.org")) (some (b "secret")) false 0)
+      [.connect .client, .run .none, .run (.data [.open_ (b "stream") (some (b "s1"))]), .tick 15000]
+    c.state = .connected ∧
+    (c.timed.map fun t => (t.fn, t.user, decide (c.now - t.lastStamp ≥ t.period))) =
+      [(.missingFeatures, false, true)] := by decide
+
+/-- every uid in use is below the uid counter, in every reachable state -/
+theorem timed_uids_fresh (jid pass : Option Bytes) (cert : Bool) (flags : Nat) (ops : List Op) :
+    ∀ x ∈ (exec (fresh jid pass cert flags) ops).timed, x.uid < (exec (fresh jid pass cert flags) ops).nextUid :=
+  Lemmas.ConnC13.timed_uids_fresh jid pass cert flags ops
 
 /-- timed handlers of a connection only run while it is connected -/
 theorem timed_only_connected (c : Conn) (h : c.state ≠ .connected) : fireTimed c = c :=
